@@ -277,7 +277,7 @@ fn is_manhattan(pts: &[P]) -> bool {
     pts.windows(2).all(|w| w[0].0 == w[1].0 || w[0].1 == w[1].1)
 }
 fn mixed_case(src: &mut Src) -> String {
-    let base = *src.pick(&["vdd", "Net1", "OUT", "clk_A", "gnd!", "Q[3]", "straße", "a"]);
+    let base = *src.pick(&["vdd", "Net1", "OUT", "clk_A", "gnd!", "Q[3]", "straße", "a", "ÄB", "", "n 1"]);
     base.to_string()
 }
 fn gen_orient(src: &mut Src) -> Orient {
